@@ -61,7 +61,9 @@ def run(rep):
     rep.notes["not_judged_deletions_healed"] = totals["notjudged"]
     rep.notes["rule"] = ("tree equality is judged by JsGrammar.ParseExpr on the token sequence; rejection only for the "
                          "named classes (closing bracket / terminator deleted, non-reference target, unary base of **); comment / string / "
-                         "regex texts are chosen by the specification over an alphabet and judged on the rendered text by LexerFSM")
+                         "regex texts are chosen by the specification over an alphabet and judged on the rendered text by LexerFSM; numeric literals "
+                         "are the product of their lexical parts (mantissa shape x exponent letter x sign x digits x value; radix prefix x "
+                         "digit case x zeros), alone and written into every position (nctx)")
     rep.assumptions += ["JsGrammar.tla transcribes the ECMA-262 expression grammar for the supported operators (strict mode)",
                         "calls and array literals as assignment targets, missing statement separators: not judged"]
 
@@ -110,6 +112,11 @@ def run_batch(rep, rng, quick, lo, hi, totals):
             s1 = R.render_holes(c["toks"], {"<L1>": wire.from_units(c["u"]), "<L2>": wire.from_units(c["u2"])})
             add(parse=[s0, s1], mode="prog", evals=[PRE_PROG + s0, PRE_PROG + s1], what="cmt", kind=kd, a=c["a"], toks=c["toks"],
                 u=wire.units(s1), u0=wire.units(s0))
+        elif kd == "nctx":
+            # a numeric literal spelling chosen by the specification written into a position: base = canonical spelling
+            s0 = R.render_holes(c["toks"], {"<L1>": wire.from_units(c["u0"])})
+            s1 = R.render_holes(c["toks"], {"<L1>": wire.from_units(c["u"])})
+            add(evals=[s0, s1], what="nctx", kind=kd, a=c["a"], toks=c["toks"], u=wire.units(s1), u0=wire.units(s0))
         elif kd in TEXT_KINDS:
             src = R.render_holes(c["toks"], {"<L1>": wire.from_units(c["u"]), "<L2>": wire.from_units(c["u2"])})
             add(parse=[src], mode="prog", what="text", kind=kd, a=c["a"], toks=c["toks"], u=wire.units(src))
@@ -159,6 +166,9 @@ def run_batch(rep, rng, quick, lo, hi, totals):
             recs.append(rec(r["id"], info["kind"], a=info["a"], toks=info["toks"], u=info["u"], act=norm_act(r["parsed"][0])))
         elif w == "lit":
             recs.append(rec(r["id"], info["kind"], a=info["a"], u=info["u"], ev0=norm_out(r["evals"][0]), ev1=norm_out(r["evals"][1])))
+        elif w == "nctx":
+            recs.append(rec(r["id"], "nctx", a=info["a"], toks=info["toks"], u=info["u"], u0=info["u0"],
+                            ev0=norm_out(r["evals"][0]), ev1=norm_out(r["evals"][1])))
         elif w == "cmt":
             p0, p1 = r["parsed"]
             recs.append(rec(r["id"], "cmt", a=info["a"], toks=info["toks"], u=info["u"], u0=info["u0"],
